@@ -57,6 +57,7 @@ type Obligation struct {
 	Src     string
 	Formula string // must be valid in context: the script asserts its negation
 	CtxLen  int
+	SkipFrom, SkipTo int // assertions on lines [SkipFrom,SkipTo) are not part of this obligation's context (code executed after the program point the obligation is about)
 	Expect  string // "unsat" (valid) or "sat" (cover)
 	Inputs  []string // terms to get-value on failure
 	Obs     []ObsTerm
@@ -72,6 +73,10 @@ type Obligation struct {
 
 // Script accumulates the logical context of one function.
 type Script struct {
+	Global   map[int]bool // assertions about nothing but global/entry symbols (kept in every context)
+	globalMode int
+	Tags     map[int]string // line index -> label of the loop invariant the line assumes (relevance filtering, see Focus)
+	Focus    map[string][]string // obligation label -> invariant labels kept in its context (others dropped: weaker context, still sound)
 	Lines    []string
 	declared map[string]int
 	sorts    map[string]Sort
@@ -83,7 +88,20 @@ func NewScript() *Script {
 	return &Script{declared: map[string]int{}, sorts: map[string]Sort{}}
 }
 
-func (s *Script) emit(line string) { s.Lines = append(s.Lines, line) }
+func (s *Script) emit(line string) {
+	if s.globalMode > 0 {
+		if s.Global == nil {
+			s.Global = map[int]bool{}
+		}
+		s.Global[len(s.Lines)] = true
+	}
+	s.Lines = append(s.Lines, line)
+}
+
+// BeginGlobal/EndGlobal bracket the emission of facts that do not depend on the program point (well-formedness of the
+// entry heaps, initial values of globals, definitional axioms): they are never dropped by context skipping.
+func (s *Script) BeginGlobal() { s.globalMode++ }
+func (s *Script) EndGlobal()   { s.globalMode-- }
 
 func (s *Script) Declare(name string, sort Sort) string {
 	sym := Sym(name)
@@ -146,7 +164,29 @@ type mark struct {
 
 func (s *Script) Mark() mark { return mark{len(s.Lines), len(s.Obls)} }
 
+// AssertTagged asserts an assumption that stems from the loop invariant with the given label.
+func (s *Script) AssertTagged(f, label string) {
+	if f == "true" {
+		return
+	}
+	if s.Tags == nil {
+		s.Tags = map[int]string{}
+	}
+	s.Tags[len(s.Lines)] = label
+	s.emit("(assert " + f + ")")
+}
+
 func (s *Script) Rollback(m mark) {
+	for k := range s.Tags {
+		if k >= m.lines {
+			delete(s.Tags, k)
+		}
+	}
+	for k := range s.Global {
+		if k >= m.lines {
+			delete(s.Global, k)
+		}
+	}
 	s.Lines = s.Lines[:m.lines]
 	s.Obls = s.Obls[:m.obls]
 	for k, v := range s.declared {
